@@ -12,3 +12,38 @@ HARNESS(h_str_selftest) {
     h = 0; for (char ch : c) h = h * 131 + ch; OI(h);
     OI(a == "result_12.vtk"); OI(b.find("cell") != std::string::npos);
 }
+
+// ---------------------------------------------------------------------------------------------
+// C10 (e): fixed-size formatting buffers. The two sprintf sites of the repository run with their numeric arguments symbolic; the
+// sprintf model of irsym asks the solver whether the text can be longer than the destination buffer.
+#include <chrono>
+#include "statistics_writer.hpp"
+#include "utils.hpp"
+
+// string_statistics_writer::write_data with an empty cell list: elapsed wall-clock time -> "hh:mm:ss" in a stack buffer. The stream member is
+// not constructed (write_data does not touch it when there is no cell). irsym: the writer starts at the epoch and system_clock::now() is an
+// arbitrary non-negative instant, i.e. the elapsed time is arbitrary; natively iin[0] = elapsed seconds.
+HARNESS(h_c10_clock) {
+    string_statistics_writer* w = (string_statistics_writer*) operator new(sizeof(string_statistics_writer));
+#ifdef IRSYM_NATIVE
+    w->starting_time_point_ = std::chrono::system_clock::now() - std::chrono::seconds(io->iin[0]);
+#else
+    w->starting_time_point_ = std::chrono::time_point<std::chrono::system_clock>();
+#endif
+    std::vector<cell_ptr> none;
+    w->string_statistics_writer::write_data(0u, 0., none);
+    OI(1);
+    operator delete(w);
+}
+
+// format_number with the formats the repository passes to it. iin: [format (0 "%.2e", 1 "%.3e", 2 "%.4e", 3 "%d" of an unsigned), unsigned value]; din: [value]
+HARNESS(h_c10_format) {
+    std::string r;
+    switch (io->iin[0]) {
+        case 0: r = format_number(io->din[0], "%.2e"); break;
+        case 1: r = format_number(io->din[0], "%.3e"); break;
+        case 2: r = format_number(io->din[0], "%.4e"); break;
+        default: r = format_number((unsigned) io->iin[1], "%d"); break;
+    }
+    OI(r.size());
+}
